@@ -9,6 +9,7 @@ def frozenOverrides : List (String × Bool) := [
   ("__delitem__", true),
   ("__iadd__", true),
   ("__imul__", true),
+  ("__init__", true),
   ("__setitem__", true),
   ("append", true),
   ("clear", true),
